@@ -1,6 +1,6 @@
 (* C04 — successive messages on a persistent connection are parsed independently. *)
 From Coq Require Import Ascii String List NArith Arith.
-Require Import Bytes Restartable ParserModel ParserLemmas HandlerModel HandlerLemmas.
+Require Import Bytes Restartable ParserModel ParserInst ParserLemmas HandlerModel HandlerLemmas.
 Import ListNotations.
 
 (* reset (as performed after a handed-over request, an error answer or a refused read) leaves
@@ -31,3 +31,39 @@ Theorem C04_independent :
     /\ snd (connection typed_other set_cookie maxsz pstate_init (concat msgs)) = pstate_init.
 Proof. exact connection_messages. Qed.
 Print Assumptions C04_independent.
+
+(* requests that share a read (a client that pipelines): [rs] are complete requests, each exactly one message [ms] and
+   within the size limit; delivered in ONE read on a fresh connection the handler is called once per request, in order,
+   with exactly the message each request gives alone on a fresh connection ([exact_request] is a statement about
+   [whole], the one-shot run on a fresh parser), and the parser is fresh afterwards *)
+Theorem C04_requests_sharing_a_read_served_as_fresh : forall typed_other set_cookie maxsz rs ms,
+  Forall2 (exact_request typed_other set_cookie) rs ms -> Forall (fun r => length r <= maxsz) rs -> rs <> [] ->
+  on_read typed_other set_cookie (length rs) maxsz pstate_init (concat rs) = Some (map AHandler ms, pstate_init).
+Proof. exact pipelined_requests. Qed.
+Print Assumptions C04_requests_sharing_a_read_served_as_fresh.
+
+(* alone, each of them gives that one handler call *)
+Theorem C04_one_request_alone : forall typed_other set_cookie fuel maxsz r m,
+  exact_request typed_other set_cookie r m -> length r <= maxsz ->
+  on_read typed_other set_cookie fuel maxsz pstate_init r = Some ([AHandler m], pstate_init).
+Proof. exact on_read_exact. Qed.
+Print Assumptions C04_one_request_alone.
+
+(* non-vacuity: two requests (one with a body) that are exact, and what one read holding both does *)
+Definition ex_r1 : bytes :=
+  list_of_string ("POST /one HTTP/1.1" ++ String "013" (String "010" "Content-Length: 3")
+    ++ String "013" (String "010" (String "013" (String "010" "abc")))).
+Definition ex_r2 : bytes :=
+  list_of_string ("GET /two?q=2 HTTP/1.1" ++ String "013" (String "010" "Host: b")
+    ++ String "013" (String "010" (String "013" (String "010" "")))).
+Example C04_ex_exact :
+  exact_request typed_other_inst set_cookie_inst ex_r1 (p_msg (snd (whole typed_other_inst set_cookie_inst KRequest ex_r1)))
+  /\ exact_request typed_other_inst set_cookie_inst ex_r2 (p_msg (snd (whole typed_other_inst set_cookie_inst KRequest ex_r2))).
+Proof.
+  split; eexists; (split; [vm_compute; reflexivity|split; vm_compute; reflexivity]).
+Qed.
+Example C04_ex_one_read :
+  option_map (fun r => map (fun a => match a with AHandler m => m_resource m | _ => [] end) (fst r))
+    (on_read typed_other_inst set_cookie_inst 2 64 pstate_init (ex_r1 ++ ex_r2 ++ firstn 9 ex_r1))
+  = Some [list_of_string "/one"; list_of_string "/two"; []].
+Proof. vm_compute. reflexivity. Qed.
